@@ -162,7 +162,7 @@ fn run(r: &mut Report, seed: u64, idx: u64) {
             let (synced, bad, in_unsynced) = {
                 let st = fs.lock();
                 let synced = synced_vids(&st, s.sep[0]);
-                let bad = bad_pieces(&st, s.sep[0]);
+                let bad = bad_pieces(&st, s.sep[0], s.second_emitter);
                 let mut all = std::collections::HashSet::new();
                 for node in st.files.values() {
                     let c = node.content();
